@@ -14,6 +14,7 @@ package main
 
 import (
 	"bufio"
+	"bytes"
 	"context"
 	"encoding/json"
 	"errors"
@@ -648,20 +649,33 @@ func runPlain(c Case) M {
 				// a new scanner on the same data at the reported offset: its first block is a data block
 				fi2 := fi
 				H2 := []M{}
-				s2 := osmpbf.New(context.Background(), readerFor(fi.Data[off:], c.Variant+len(seen)), c.Cfg.N)
+				// the resumed input: the rest of the data behind one of the reader behaviours, or -- every third time -- the whole
+				// data in a seekable reader positioned at the offset (what a caller does with a file: Seek, then New)
+				var r2 io.Reader = readerFor(fi.Data[off:], c.Variant+len(seen))
+				if (len(seen)+c.Variant)%3 == 0 {
+					br := bytes.NewReader(fi.Data)
+					br.Seek(off, io.SeekStart)
+					r2 = br
+				}
+				s2 := osmpbf.New(context.Background(), r2, c.Cfg.N)
 				if (len(seen)+c.Variant)%2 == 0 {
 					s2.Header() // asking a resumed scanner for its (absent) header must not disturb the scan
 				}
 				objs := [][]int{}
-				for s2.Scan() {
+				offs := [][]int{} // what the resumed scanner reports, as absolute abstract offsets (offsets are relative to where it started)
+				for k := 0; s2.Scan(); k++ {
 					b, i := 0, 0
 					if n, isNode := s2.Object().(*osm.Node); isNode {
 						b, i = fi2.Pos(int64(n.ID))
 					}
 					objs = append(objs, []int{b, i})
+					offs = append(offs, []int{fi.AbsOff(off + s2.FullyScannedBytes()), fi.AbsOff(off + s2.PreviousFullyScannedBytes())})
+					if k == 1 && (len(seen)+c.Variant)%4 == 1 {
+						s2.Header() // ... nor may asking again in the middle of the resumed scan
+					}
 				}
 				_ = H2
-				resume = append(resume, M{"from": fi.Blk(off), "objs": objs, "err": errClass(s2.Err())})
+				resume = append(resume, M{"from": fi.Blk(off), "objs": objs, "offs": offs, "err": errClass(s2.Err())})
 				s2.Close()
 			}
 			for _, h := range H {
